@@ -6,6 +6,7 @@ CONSTANTS
   Cap = 2
   Weaken = "noBump"
   GapFix = FALSE
+  CertRounds = {1}
   Direct = FALSE
   Timeouts = FALSE
 PROPERTY NoRerun
